@@ -74,6 +74,16 @@ def cek_property(pid, tier, plan, relevant, rule, level='model_checking', max_oo
             nviol += 1
     if extra_check:
         extra_check(verdict, sessions, wd)
+    vm_mc = None
+    if tier == 'thorough' and pid in ('C04', 'C05', 'C07', 'C13'):
+        # the calling-protocol model of the VM (MarwoodVM.tla): FrameChain, TailCallOK, ReturnOK, RestoreOK,
+        # FailureOK, IdleSp, SliceInvisible for all call / tail-call / vararg / return / capture / throw / fail
+        # / yield sequences within the bounds of MC_VM.cfg
+        r = vlib.tlc('MarwoodVM', 'MC_VM.cfg', os.path.join(wd, 'mcvm'), workers=8, timeout=1800, heap='8g')
+        if r.rc != 0:
+            vlib.log(r.tail)
+            raise vlib.ToolError('model check of MarwoodVM failed (rc=%d)' % r.rc)
+        vm_mc = {'cfg': 'MC_VM.cfg', 'states': r.generated, 'distinct': r.distinct}
     rules = cek.summarize_rules(ends)
     forms = sum(e['forms'] for e in ends)
     nruns = sum(len(s['runs']) for S in sessions.values() for s in S.values())
@@ -96,6 +106,8 @@ def cek_property(pid, tier, plan, relevant, rule, level='model_checking', max_oo
         'mismatch_groups_total': len(groups), 'violations_of_this_property': verdict.total,
         'tlc_wall_s': round(stats['wall'], 1),
     }
+    if vm_mc:
+        cov['marwoodvm_model_check'] = vm_mc
     if extra_cov:
         cov.update(extra_cov(sessions, ends))
     rc = verdict.finish()
